@@ -14,6 +14,7 @@ import (
 	"log/slog"
 	"math/rand"
 	"os"
+	"os/exec"
 	"path/filepath"
 	"runtime/debug"
 	"sort"
@@ -268,6 +269,10 @@ func Main(id, level string, run func(c *Ctx)) {
 	tier := flag.String("tier", envOr("VERIF_TIER", "quick"), "quick|thorough")
 	flag.StringVar(&ReplayFile, "replay", "", "replay file")
 	flag.Parse()
+	if GuardFatal && os.Getenv("VERIF_CHILD") == "" {
+		guardFatal(id, level, *tier)
+		return
+	}
 	seed := int64(1)
 	if v := os.Getenv("VERIF_SEED"); v != "" {
 		if n, err := strconv.ParseInt(v, 10, 64); err == nil {
@@ -321,6 +326,109 @@ func Main(id, level string, run func(c *Ctx)) {
 }
 
 var level0 string
+
+// GuardFatal (set by a driver before Main) runs the driver in a child process, so that an abort of the Go runtime
+// INSIDE the code under test ("fatal error: concurrent map ..." cannot be recovered) is judged instead of killing the
+// check: when the goroutine that faulted was executing a function of github.com/mycoria/mycoria, the crash is
+// real-code behaviour and reported as a violation of the property (no router survives it); any other death of the
+// child stays what it was (exit 2: the check could not complete).
+var GuardFatal bool
+
+func guardFatal(id, level, tier string) {
+	cmd := exec.Command(os.Args[0], os.Args[1:]...)
+	cmd.Env = append(os.Environ(), "VERIF_CHILD=1")
+	cmd.Stdout = os.Stdout
+	tail := &tailWriter{max: 256 << 10, out: os.Stderr}
+	cmd.Stderr = tail
+	err := cmd.Run()
+	code := 0
+	if err != nil {
+		code = ExitBroken
+		if ee, ok := err.(*exec.ExitError); ok {
+			code = ee.ExitCode()
+		}
+	}
+	fn, what, stack := repoFatal(string(tail.buf))
+	if fn == "" {
+		os.Exit(code)
+	}
+	seed := int64(1)
+	if v := os.Getenv("VERIF_SEED"); v != "" {
+		if n, err := strconv.ParseInt(v, 10, 64); err == nil {
+			seed = n
+		}
+	}
+	c := &Ctx{ID: id, Tier: tier, Seed: seed, Rand: rand.New(rand.NewSource(seed)), Start: time.Now(),
+		distinct: map[string]struct{}{}, extra: map[string]any{}, violations: map[string]string{}, known: map[string]string{}, stages: map[string]any{}}
+	level0 = level
+	c.Work = filepath.Join(VerifRoot, ".work", fmt.Sprintf("%s-%d", id, os.Getpid()))
+	_ = os.MkdirAll(c.Work, 0o755)
+	if data, err := os.ReadFile(filepath.Join(VerifRoot, "known_findings.json")); err == nil {
+		var kf struct {
+			Findings []Finding `json:"findings"`
+		}
+		if json.Unmarshal(data, &kf) == nil {
+			c.findings = kf.Findings
+		}
+	}
+	c.Rule("the driver ran in a child process that the Go runtime aborted inside the code under test")
+	c.Eval(1)
+	c.Violation(Key("fatal", what, fn), fmt.Sprintf("the Go runtime aborted the process inside the code under test: fatal error: %s in %s (no recover is possible: every router in the process is gone)", what, fn),
+		map[string]any{"fatal": what, "function": fn, "stack": stack}, nil)
+	c.finish()
+}
+
+type tailWriter struct {
+	buf []byte
+	max int
+	out io.Writer
+}
+
+func (t *tailWriter) Write(p []byte) (int, error) {
+	t.buf = append(t.buf, p...)
+	if len(t.buf) > t.max {
+		t.buf = t.buf[len(t.buf)-t.max:]
+	}
+	return t.out.Write(p)
+}
+
+// repoFatal finds a runtime abort in a crash dump and returns the first function of the faulting goroutine that is
+// not part of the Go runtime / standard library when that function belongs to the repository under test.
+func repoFatal(dump string) (fn, what, stack string) {
+	i := strings.Index(dump, "fatal error: ")
+	if i < 0 {
+		return "", "", ""
+	}
+	rest := dump[i+len("fatal error: "):]
+	nl := strings.IndexByte(rest, '\n')
+	if nl < 0 {
+		return "", "", ""
+	}
+	what = strings.TrimSpace(rest[:nl])
+	j := strings.Index(rest, "[running]:")
+	if j < 0 {
+		return "", "", ""
+	}
+	blk := rest[j:]
+	if e := strings.Index(blk, "\n\n"); e > 0 {
+		blk = blk[:e]
+	}
+	lines := strings.Split(blk, "\n")[1:]
+	for k := 0; k+1 < len(lines); k += 2 {
+		f, file := strings.TrimSpace(lines[k]), strings.TrimSpace(lines[k+1])
+		if strings.Contains(file, "/golang.org/toolchain@") || strings.Contains(file, "/go/src/") || strings.Contains(file, "/src/runtime/") || strings.HasPrefix(f, "runtime.") || strings.HasPrefix(f, "internal/") {
+			continue
+		}
+		if strings.HasPrefix(f, "github.com/mycoria/mycoria/") {
+			if p := strings.LastIndex(f, "("); p > 0 && strings.HasSuffix(f, ")") {
+				f = f[:p]
+			}
+			return strings.TrimPrefix(f, "github.com/mycoria/mycoria/"), what, blk
+		}
+		return "", "", ""
+	}
+	return "", "", ""
+}
 
 type stop struct{}
 
